@@ -15,7 +15,9 @@ CLAIMED = {
              'integers; z3 refutes V(M)!=Spec(M) and Spec(M)!=(M in enumerated list) per (connector settings, existence '
              'pattern incl. absent connectors, explicit degree override lists with gaps, degree caps) for <=3x3 connectors; '
              'the enumerator and the counter run concretely and their output is the right-hand side of the second query; '
-             'counts (three APIs) and query order (filtered iteration first) are compared with the listing.',
+             'counts (three APIs) and query order (filtered or abandoned iteration first) are compared with the listing; concrete '
+             'histories: existence patterns built with shared override dicts and exists masks, and two different settings '
+             'enumerated one after the other in one cache.',
         note='Trusted: z3 (LIA), the independent specification in spec/conn.py, the symx engine (each path is cross-checked '
              'by one native jitted run). Bounds: <=3x3 connectors, alphabet of 18(+3) connector types, patterns from '
              'pools/conn.py; entries unbounded. Outside: negative entries, >3 connectors per side. Thorough tier: the closing '
@@ -32,7 +34,8 @@ CLAIMED = {
              'DSG templates, idx in Z symbolic: (idx in spec) <=> idx in set(iter(spec)). Canonical inactive value: '
              '_get_inactive_value = (lo+hi)/2 in [lo,hi] for symbolic bounds. AUXILIARY (concrete, labelled so in the evidence): on '
              'the DSG templates every listed design carries canonical inactive values and decodes to itself with and without '
-             'materialising the instance.',
+             'materialising the instance - on the free problem and under single fixes, also on seeded random graphs. A variable seen '
+             'inactive in a valid design must be flagged conditionally active.',
         note='Trusted: z3, symx, spec/conn.py. One known finding (D1: eager direct-hit activeness) is listed in '
              'known_findings.json and reported as KNOWN-FINDING. Not decided: that selection-choice and design-variable-node '
              'activeness agree between enumeration, create=True and create=False on whole graphs (no symbolic input).',
@@ -47,8 +50,9 @@ CLAIMED = {
              'range, surplus entries inactive, matrix valid by the specification; across paths: equal corrected vectors give '
              'equal matrices, decode of the corrected vector is a fixed point (native), the corrected vectors are exactly '
              'get_all_design_vectors, onto-ness as a z3 query over all non-negative integer matrices, >= 2 used values per '
-             'declared variable.',
-        note='Trusted: z3 (LIA), spec/conn.py (decided against the real enumerator under C09), symx (native replay per path). '
+             'declared variable; get_conn_idx returns the edge list of that matrix. AUXILIARY (concrete): interference between problems '
+             '(settings B after A in one cache, manager A while B is alive, encoder object of A serving B).',
+        note='Two known findings (D3 lazy encoders, D4 partitioning pattern with one valid matrix). Trusted: z3 (LIA), spec/conn.py (decided against the real enumerator under C09), symx (native replay per path). '
              'Bounds: <= 6 declared variables, <= 20000 paths per instance, settings <= 3x3; the quick tier defers instances '
              'with more than ~2500 estimated paths to the thorough tier (listed in the evidence). Constraint-violation '
              'imputers: "valid matrix or the documented all(-1) marker", onto-ness not demanded.',
@@ -65,7 +69,8 @@ CLAIMED = {
              'validate_matrix with that pattern), Spec != (M in iter_conn_edges(instance)), Spec != V_b (summary of the real '
              'validator behind validate_conn_edges); scenario masked <=> Spec unsatisfiable. Grouping connector: real '
              'get_combined_deg / is_valid / to_assign_node with symbolic member degrees and symbolic queried degree: '
-             'is_valid(d) <=> exists member degrees summing to d. Connector construction with symbolic deg_min/deg_max.',
+             'is_valid(d) <=> exists member degrees summing to d. Connector construction with symbolic deg_min/deg_max. Histories '
+             '(concrete): instances derived before they are examined, one processor decoding all listed designs in order and in reverse.',
         note='Trusted: z3 (LIA + one quantifier alternation for the grouping sum), spec/conn.py, symx (native replay of '
              'every model, one native run per validator path). The parallel-connection cap is taken from the library per '
              'view (a library parameter; decided under C09). Graphs other than the templates are outside the claim; '
@@ -77,7 +82,8 @@ CLAIMED = {
         text='PARTIAL. Bounded symbolic execution of the real get_valid_idx_combinations on rows of symbolic indices '
              '(>= -1, unbounded above, 2-4 choices): a row is kept iff the documented predicate holds (z3, per path); the '
              'sequential semantics (get_constraint_removed_options / get_constraint_pre_removed_options, and the same '
-             'histories through the real DSG API on flat, hierarchical and mutually-exclusive placements) with the order of '
+             'histories through the real DSG API on flat, hierarchical, mutually-exclusive, conditional, two-constraint, copied-graph and '
+             'shared-option placements) with the order of '
              'taking choices and the option taken symbolic: all histories exhausted, soundness, completeness per order, dead '
              'ends only without completion; linked design variables through the real set_des_var_value (same index / same '
              'relative position, values unbounded). AUXILIARY (concrete): GraphProcessor with the complete and the fast encoder on '
@@ -98,11 +104,13 @@ CLAIMED = {
              'filters of the free enumeration, decodes of restricted rows (create=True and False) are fixed points, count == '
              'rows, and after fix/decode/free, fix/free/fix/free and fix a/fix b/free/free (both orders) the processor is '
              'observationally equal to a fresh one (variables, enumeration with_fixed=True/False in both call orders, counts, '
-             'statistics rows, decodes of every free row); re-fixing to another value without freeing equals a fresh fix.',
+             'statistics rows, decodes of every free row); re-fixing to another value without freeing equals a fresh fix; a symbolic '
+             'second fix on a fixed variable is rejected iff out of range and leaves the restricted problem unchanged. Templates, '
+             'seeded random graphs (10 quick / 60 thorough per run), and the fast encoder on nine templates and a few random graphs.',
         note='Trusted: z3, symx. The symbolic content is the accept/reject decision over all integers/reals; the restriction '
              'and restoration laws are decided by exhausting the accepted values of the small templates (the brief\'s own '
-             'quantifier: all variables x all values x sequences up to length 4). Outside: other graphs, the fast encoder, '
-             'statistics tables.',
+             'quantifier: all variables x all values x sequences up to length 4). Outside: other graphs, '
+             'statistics other than the two total rows.',
         technique=TECH+'symbolic fixed value, native continuation per path against a fresh processor',
         ref='DESIGN.md section 4 (C15)'),
     'C16': dict(
@@ -113,9 +121,10 @@ CLAIMED = {
              'domain and that linked continuous values keep the relative position. IEEE behaviour: the same real code is run '
              'on z3 FloatingPoint values (Float16/32/64); "stored value in bounds or NaN" is proved after abstracting '
              'arithmetic subterms (sound) or refuted with a model that is replayed natively with NumPy scalars of that width. '
-             'Decode path: GraphProcessor.get_graph on four templates with the discrete design-variable entries symbolic in '
+             'Decode path: GraphProcessor.get_graph on twelve templates and seeded random graphs with the discrete design-variable entries symbolic in '
              '[-3, n+3]: existing nodes carry the clamped value which the corrected vector reports, absent nodes are inactive '
-             'at the canonical value; a copy of a graph is independent of later set_des_var_value calls.',
+             'at the canonical value, linked followers carry the linked value, an instance returned earlier keeps its values when the '
+             'architecture is decoded again, listed designs report the same entries; a copy of a graph is independent of later set_des_var_value calls.',
         note='Trusted: z3 (LRA/NRA, QF_FP), the symx engine (one native run per path). Preconditions: value not NaN, lo<hi, '
              'FP magnitudes <= 2^20. Not decided: "every existing node has a value and the vector reports it" on whole '
              'decoded graphs (get_graph casts with int()/float()).',
@@ -126,11 +135,12 @@ CLAIMED = {
         text='Symbolic execution (symx + z3) of the real metric typing code (GraphProcessor._get_metrics/_categorize_metrics, '
              'Objective/Constraint.from_metric_node) with direction a symbolic integer and reference a symbolic real over all '
              '40 placement x declaration configurations, and of DSGEvaluator.evaluate with an evaluator stub returning '
-             'symbolic reals / NaN / nothing (27 behaviours x 2 architectures): role, sign (dir<=0 <=> -1), reference and '
-             'value pass-through are solver obligations per path. The symbolic content is thin (one sign test, pass-through); '
-             'hence level "other" rather than model checking.',
-        note='Trusted: z3, symx. Templates: metric under a permanent node or under one option of a selection choice. '
-             'Placement in arbitrary graphs is a graph-structure quantifier and outside the claim.',
+             'symbolic reals / NaN / nothing / a value for an absent node (64 behaviours x 2 architectures): role, sign (dir<=0 <=> -1), '
+             'reference and value pass-through are solver obligations per path; pairs and triples of metric nodes, seeded random '
+             'graphs (60 quick / 600 thorough), two evaluations with one evaluator, values pre-stored on the graph, two processors '
+             'sharing the node objects. The symbolic content is thin (one sign test, pass-through); hence level "other".',
+        note='Trusted: z3, symx. A metric that exists in every architecture only through choices may be read either way '
+             '(necessary condition only). Placement in arbitrary graphs is a graph-structure quantifier and outside the claim.',
         technique=TECH+'sweep of placement/declaration configurations around symbolic direction, reference and values',
         ref='DESIGN.md section 4 (C17)'),
 }
